@@ -11,7 +11,15 @@
    writer's rollover step is disabled (the writer blocks) while a fetcher is between the two.
    [locked = false] is the variant in which lookup and copy are not one critical section.
 
-   Granularity: a frame is atomic.  That is exact for the locked system (everything a fetcher
+   A frame that closes a segment is two writer steps: "list" (segmentClose up to and including
+   addSegment: the segment's store is closed/flushed, then it is appended to the playlist) and
+   "finish" (the rest of the frame: segmentOpen, writes into the new, private segment).  Between the
+   two the writer holds no lock and fetchers may run.  [l_flushed] records the numbers whose store
+   (file / buffer) has been closed; [late = true] is the variant that closes the store only in the
+   finish step, i.e. AFTER the listing: in disk mode the file then lacks the bytes still buffered.
+   [l_st] already contains the effect of the finish step (it touches nothing a fetcher can see).
+
+   Granularity: apart from that split a frame is atomic.  That is exact for the locked system (everything a fetcher
    can see changes inside addSegment/clearSegments, under the write lock) and is enough to
    exhibit the failure of the unlocked variant.  sync.RWMutex gives a waiting writer
    precedence: a lookup arriving while the writer is blocked would wait for it, such a label
@@ -26,7 +34,9 @@ Inductive fres :=
 | FNotFound                      (* "Not found TSFile" at lookup *)
 | FBytes (fs : list wframe)      (* a reader over the transport stream of these frames *)
 | FPanic                         (* memory mode: get() on a deleted file dereferences mf.file = nil *)
-| FErr.                          (* disk mode: get() on a removed file *)
+| FErr                           (* disk mode: get() on a removed file *)
+| FPartial.                      (* disk mode: the file of a listed segment whose store is not yet closed: bytes that
+                                    are not the transport stream of the segment (tail missing, last packet torn) *)
 
 Record frec := {
   fr_id : Z;
@@ -39,7 +49,10 @@ Record lts := {
   l_st : st;
   l_in : list frame;             (* writer input still to come *)
   l_blocked : bool;              (* the writer waits for the write lock with the head frame *)
-  l_recs : list frec
+  l_recs : list frec;
+  l_mid : bool;                  (* the writer is between "list" and "finish" *)
+  l_flushed : list Z;            (* numbers whose store has been closed (bufio flushed, file closed) *)
+  l_pend : list Z                (* late variant: numbers listed whose store is closed by the finish step *)
 }.
 
 Inductive label :=
@@ -55,41 +68,65 @@ Definition holding (r : frec) : bool :=
   match fr_at r, fr_res r with Some _, None => true | _, _ => false end.
 Definition has_holder (l : list frec) : bool := existsb holding l.
 
+(* the segments the frame lists *)
+Definition new_closed (c : cfg) (f : frame) (s : st) : list seg :=
+  skipn (length (closed s)) (closed (write_frame c f s)).
+
 (* seg.file.get() now, on the segment that carried number [seq] *)
-Definition get_now (c : cfg) (seq : Z) (s : st) : fres :=
+Definition get_now (c : cfg) (flushed : list Z) (seq : Z) (s : st) : fres :=
   match find_seg seq (pl s) with
-  | Some g => FBytes (s_frames g)
+  | Some g => if c_mem c || mem_z seq flushed then FBytes (s_frames g) else FPartial
   | None => if c_mem c then FPanic else FErr
   end.
 
-Definition writer_go (c : cfg) (l : lts) : lts :=
+(* the writer runs its head frame up to the listing (a frame that lists nothing runs to its end) *)
+Definition writer_go (late : bool) (c : cfg) (l : lts) : lts :=
   match l_in l with
-  | [] => {| l_st := l_st l; l_in := []; l_blocked := false; l_recs := l_recs l |}
-  | f :: rest => {| l_st := write_frame c f (l_st l); l_in := rest; l_blocked := false; l_recs := l_recs l |}
+  | [] => {| l_st := l_st l; l_in := []; l_blocked := false; l_recs := l_recs l;
+             l_mid := false; l_flushed := l_flushed l; l_pend := l_pend l |}
+  | f :: rest =>
+      let nc := map s_seq (new_closed c f (l_st l)) in
+      {| l_st := write_frame c f (l_st l); l_in := rest; l_blocked := false; l_recs := l_recs l;
+         l_mid := takes_wlock c f (l_st l);
+         l_flushed := if late then l_flushed l else nc ++ l_flushed l;
+         l_pend := if late then nc ++ l_pend l else l_pend l |}
   end.
+
+(* the finish step *)
+Definition writer_finish (l : lts) : lts :=
+  {| l_st := l_st l; l_in := l_in l; l_blocked := l_blocked l; l_recs := l_recs l;
+     l_mid := false; l_flushed := l_pend l ++ l_flushed l; l_pend := [] |}.
 
 Definition id_used (id : Z) (l : list frec) : bool := existsb (fun r => fr_id r =? id) l.
 
-Fixpoint copy_rec (c : cfg) (s : st) (id : Z) (l : list frec) : list frec :=
+Fixpoint copy_rec (c : cfg) (flushed : list Z) (s : st) (id : Z) (l : list frec) : list frec :=
   match l with
   | [] => []
   | r :: t =>
       if (fr_id r =? id) && holding r
       then {| fr_id := fr_id r; fr_seq := fr_seq r; fr_at := fr_at r;
-              fr_res := Some (get_now c (match fr_at r with Some g => s_seq g | None => fr_seq r end) s) |} :: t
-      else r :: copy_rec c s id t
+              fr_res := Some (get_now c flushed (match fr_at r with Some g => s_seq g | None => fr_seq r end) s) |} :: t
+      else r :: copy_rec c flushed s id t
   end.
 
-Definition lstep (locked : bool) (c : cfg) (l : lts) (a : label) : lts :=
+Definition set_blocked (b : bool) (l : lts) : lts :=
+  {| l_st := l_st l; l_in := l_in l; l_blocked := b; l_recs := l_recs l;
+     l_mid := l_mid l; l_flushed := l_flushed l; l_pend := l_pend l |}.
+Definition set_recs (recs : list frec) (l : lts) : lts :=
+  {| l_st := l_st l; l_in := l_in l; l_blocked := l_blocked l; l_recs := recs;
+     l_mid := l_mid l; l_flushed := l_flushed l; l_pend := l_pend l |}.
+
+Definition lstep_gen (locked late : bool) (c : cfg) (l : lts) (a : label) : lts :=
   match a with
   | LW =>
       if l_blocked l then l else
+      if l_mid l then writer_finish l else
       match l_in l with
       | [] => l
       | f :: _ =>
           if locked && takes_wlock c f (l_st l) && has_holder (l_recs l)
-          then {| l_st := l_st l; l_in := l_in l; l_blocked := true; l_recs := l_recs l |}
-          else writer_go c l
+          then set_blocked true l
+          else writer_go late c l
       end
   | LLookup id seq =>
       if l_blocked l || id_used id (l_recs l) then l else
@@ -97,16 +134,22 @@ Definition lstep (locked : bool) (c : cfg) (l : lts) (a : label) : lts :=
                | Some g => {| fr_id := id; fr_seq := seq; fr_at := Some g; fr_res := None |}
                | None => {| fr_id := id; fr_seq := seq; fr_at := None; fr_res := Some FNotFound |}
                end in
-      {| l_st := l_st l; l_in := l_in l; l_blocked := false; l_recs := l_recs l ++ [r] |}
+      set_recs (l_recs l ++ [r]) l
   | LCopy id =>
-      let recs := copy_rec c (l_st l) id (l_recs l) in
-      let l1 := {| l_st := l_st l; l_in := l_in l; l_blocked := l_blocked l; l_recs := recs |} in
-      (* the last reader to leave wakes the waiting writer, which finishes its frame *)
-      if l_blocked l && negb (has_holder recs) then writer_go c l1 else l1
+      let recs := copy_rec c (l_flushed l) (l_st l) id (l_recs l) in
+      let l1 := set_recs recs l in
+      (* the last reader to leave wakes the waiting writer, which runs on to the listing *)
+      if l_blocked l && negb (has_holder recs) then writer_go late c l1 else l1
   end.
 
+(* the code as it is: the store is closed before the listing *)
+Definition lstep (locked : bool) (c : cfg) (l : lts) (a : label) : lts := lstep_gen locked false c l a.
+
 Definition linit (c : cfg) (fs : list frame) : lts :=
-  {| l_st := init c; l_in := fs; l_blocked := false; l_recs := [] |}.
+  {| l_st := init c; l_in := fs; l_blocked := false; l_recs := []; l_mid := false; l_flushed := []; l_pend := [] |}.
+
+Fixpoint lrun_gen (locked late : bool) (c : cfg) (l : lts) (sched : list label) : lts :=
+  match sched with [] => l | a :: t => lrun_gen locked late c (lstep_gen locked late c l a) t end.
 
 Fixpoint lrun (locked : bool) (c : cfg) (l : lts) (sched : list label) : lts :=
   match sched with [] => l | a :: t => lrun locked c (lstep locked c l a) t end.
@@ -130,8 +173,13 @@ Definition fres_eqb (a b : fres) : bool :=
   | FBytes x, FBytes y => list_eqb wframe_eqb (map strip x) (map strip y)
   | FPanic, FPanic => true
   | FErr, FErr => true
+  | FPartial, FPartial => true
   | _, _ => false
   end.
+
+(* every listed segment has a closed store *)
+Definition listed_complete (c : cfg) (l : lts) : bool :=
+  c_mem c || forallb (fun g => mem_z (s_seq g) (l_flushed l)) (pl (l_st l)).
 
 Definition fetch_ok (r : frec) : bool :=
   match fr_res r with None => true | Some x => fres_eqb x (expected r) end.
